@@ -5,7 +5,7 @@ use std::sync::OnceLock;
 use vcore::proptest::prelude::*;
 use vcore::{Cx, Level, Res};
 
-const RULE: &str = "cases are (a) the COMPLETE product of event classes — kind {absent, typed span, typed metric, text span, text metric, unknown text, upper-case SPAN, mixed-case Metric, padded ' metric ', integer, bool} x extent {none, point, range, empty range} x metric value {int, float, int seq, float seq, mixed numeric seq, empty seq, nested seq, seq with a text element, text, numeric-looking text, bool, missing, u64 above i64::MAX; sequences captured through sval and through serde} x aggregation {absent, sum, count, last, min, max} x all 8 subsets of configured signals x wire (quick: HTTP/protobuf, HTTP/JSON; thorough: also gzip and gRPC), each class one case served by a real emit_otlp emitter per (subset, wire) talking to the scripted collector, and (b) random streams of 1-6 events with random payloads (other integer/float widths, NaN/inf, null, random kind texts and case/padding variants, extra properties, kind property first or last) over random per-signal wire mixes. Non-trivial = the event carries (or may carry) a span/metric kind but that kind's signal is not configured or the event fails the kind's qualification (metric without a numeric/numeric-sequence value, span without a range extent).";
+const RULE: &str = "cases are (a) the COMPLETE product of event classes — kind {absent, typed span, typed metric, text span, text metric, unknown text, upper-case SPAN, mixed-case Metric, padded ' metric ', integer, bool} x extent {none, point, range, empty range} x metric value {int, float, int seq, float seq, mixed numeric seq, empty seq, nested seq, seq with a text element, text, numeric-looking text, bool, missing, u64 above i64::MAX; sequences captured through sval and through serde} x aggregation {absent, sum, count, last, min, max} x all 8 subsets of configured signals x wire {HTTP/protobuf, HTTP/JSON, both with gzip, gRPC, gRPC with gzip}, each class one case served by a real emit_otlp emitter per (subset, wire) talking to the scripted collector, and (b) random streams of 1-6 events with random payloads (other integer/float widths, NaN/inf, null, random kind texts and case/padding variants, extra properties, kind property first or last) over random per-signal wire mixes. Non-trivial = the event carries (or may carry) a span/metric kind but that kind's signal is not configured or the event fails the kind's qualification (metric without a numeric/numeric-sequence value, span without a range extent).";
 
 // ---------------------------------------------------------------------------------------------
 // (a) complete class product
@@ -97,12 +97,9 @@ impl ClassCase {
     }
 }
 
-fn wires(quick: bool) -> Vec<Wire> {
-    if quick {
-        vec![Wire::HttpProto, Wire::HttpJson]
-    } else {
-        vec![Wire::HttpProto, Wire::HttpJson, Wire::HttpProtoGzip, Wire::HttpJsonGzip, Wire::GrpcProto, Wire::GrpcProtoGzip]
-    }
+fn wires(_quick: bool) -> Vec<Wire> {
+    // the product is cheap (one emitter per configuration): both tiers enumerate every wire
+    vec![Wire::HttpProto, Wire::HttpJson, Wire::HttpProtoGzip, Wire::HttpJsonGzip, Wire::GrpcProto, Wire::GrpcProtoGzip]
 }
 
 type Table = HashMap<(u8, Wire), ConfigRun>;
@@ -271,7 +268,8 @@ fn main() {
             s.require("value:nested-seq", 100);
             s.require("wire:HttpProto", 100);
             s.require("wire:HttpJson", 100);
-            s.require("wire:GrpcProto", 10);
+            s.require("wire:GrpcProto", 100);
+            s.require("wire:HttpJsonGzip", 100);
             s.require("signals:---", 100);
             s.require("signals:LTM", 100);
 
@@ -281,7 +279,7 @@ fn main() {
                 .flat_map(|w| (0..8u8).flat_map(move |sub| (0..PER_CONFIG).map(move |i| ClassCase::from_index(sub, w, i))));
             s.enumerate("class-product", cases, move |c, cx| check_class(c, quick, cx));
 
-            s.gen("random-streams", s.n(1500, 60_000), stream_case, check_stream);
+            s.gen("random-streams", s.n(6000, 200_000), stream_case, check_stream);
         },
     )
 }
